@@ -25,12 +25,12 @@ Proof. destruct j as [| |m [e|]| | |]; cbn [dec_uint64]; try discriminate. match
 Lemma np_bigint j : NP (dec_bigint_ptr j). Proof. destruct j as [| |m [e|]| | |]; simpl; discriminate. Qed.
 Lemma np_any j : NP (dec_any j). Proof. unfold dec_any. destruct (any_ok j); discriminate. Qed.
 Lemma np_raw j : NP (dec_raw j). Proof. discriminate. Qed.
-Lemma np_map {A} (dec : json -> decoded A) j : (forall x, NP (dec x)) -> NP (dec_map dec j).
+Lemma np_map {A} (dec : ajson -> decoded A) j : (forall x, NP (dec x)) -> NP (dec_map dec j).
 Proof.
   intros H. destruct j; simpl; try discriminate.
   apply np_bind; [|intros; apply np_ok]. apply np_mapM. intros kv. apply np_bind; [apply H|intros; apply np_ok].
 Qed.
-Lemma np_list {A} (dec : json -> decoded A) j : (forall x, NP (dec x)) -> NP (dec_list dec j).
+Lemma np_list {A} (dec : ajson -> decoded A) j : (forall x, NP (dec x)) -> NP (dec_list dec j).
 Proof. intros H. destruct j; simpl; try discriminate. apply np_mapM, H. Qed.
 Lemma np_fld {A} k l (z : A) dec : (forall x, NP (dec x)) -> NP (fld k l z dec).
 Proof. intros H. unfold fld. destruct (jfield k l); [apply H|apply np_ok]. Qed.
@@ -77,7 +77,7 @@ Theorem dec_metadata_no_panic j : dec_metadata j <> Panic.
 Proof. apply np_metadata. Qed.
 
 (* ---- v1 Script.ToCore: exactly which variables panic *)
-Definition v1_bad_var (v : json) : bool := match v with JNum _ _ | JBool _ | JArr _ => true | _ => false end.
+Definition v1_bad_var (v : ajson) : bool := match v with AJNum _ _ | AJBool _ | AJArr _ => true | _ => false end.
 Lemma v1_var_panic_iff v : v1_var v = Panic <-> v1_bad_var v = true.
 Proof.
   destruct v as [| b | m e | s | l | m]; simpl; split; intros H; try discriminate; try reflexivity.
@@ -87,7 +87,7 @@ Proof.
   destruct (jfield "amount" m) as [[| | n [e|] | | |]|]; simpl; discriminate.
 Qed.
 Lemma mapM_v1_np l : (forall kv, In kv l -> v1_bad_var (snd kv) = false) ->
-  NP (mapM (fun kv : string * json => x <- v1_var (snd kv);; Ok (fst kv, x)) l).
+  NP (mapM (fun kv : string * ajson => x <- v1_var (snd kv);; Ok (fst kv, x)) l).
 Proof.
   induction l as [|kv r IH]; intros H; simpl; [apply np_ok|].
   apply np_bind.
@@ -221,14 +221,14 @@ Proof. rewrite pg_io_value. apply scan_pg_text. Qed.
 (* ================================================================== request amounts *)
 (* v1 Script.ToCore: {"asset": a, "amount": n} with n a JSON integer of ANY magnitude -> "a n" *)
 Theorem v1_monetary_exact m a n :
-  jfield "asset" m = Some (JStr a) -> jfield "amount" m = Some (JNum n None) ->
-  v1_var (JObj m) = Ok (a ++ " " ++ zstr n).
+  jfield "asset" m = Some (AJStr a) -> jfield "amount" m = Some (AJNum n None) ->
+  v1_var (AJObj m) = Ok (a ++ " " ++ zstr n).
 Proof. intros H1 H2. simpl. rewrite H1, H2. reflexivity. Qed.
 
 (* ScriptV1.ToCore, amount as a decimal STRING: passed through verbatim *)
 Theorem scriptv1_string_exact m a t :
-  jfield "asset" m = Some (JStr a) -> jfield "amount" m = Some (JStr t) ->
-  scriptv1_var (JObj m) = Some (a ++ " " ++ t).
+  jfield "asset" m = Some (AJStr a) -> jfield "amount" m = Some (AJStr t) ->
+  scriptv1_var (AJObj m) = Some (a ++ " " ++ t).
 Proof. intros H1 H2. simpl. rewrite H1, H2. reflexivity. Qed.
 
 (* ScriptV1.ToCore, amount as a JSON NUMBER: exact below 2^53 *)
@@ -248,8 +248,8 @@ Proof.
 Qed.
 Theorem scriptv1_number_exact_below_2_53 m a n :
   Z.abs n < 2 ^ 53 ->
-  jfield "asset" m = Some (JStr a) -> jfield "amount" m = Some (JNum n None) ->
-  scriptv1_var (JObj m) = Some (a ++ " " ++ zstr n).
+  jfield "asset" m = Some (AJStr a) -> jfield "amount" m = Some (AJNum n None) ->
+  scriptv1_var (AJObj m) = Some (a ++ " " ++ zstr n).
 Proof.
   intros H H1 H2. destruct (f64_small n H) as [f [E1 E2]].
   simpl. rewrite H1, H2, E1, E2. reflexivity.
@@ -259,7 +259,7 @@ Qed.
 Lemma bind_ok {A B} (m : decoded A) (f : A -> decoded B) b : bind m f = Ok b -> exists a, m = Ok a /\ f a = Ok b.
 Proof. destruct m as [a|e|]; simpl; intros H; try discriminate. exists a. split; [reflexivity|exact H]. Qed.
 Theorem v2_posting_amount_exact l n p :
-  jfield "amount" l = Some (JNum n None) -> dec_posting (JObj l) = Ok p -> rp_amt p = Some n.
+  jfield "amount" l = Some (AJNum n None) -> dec_posting (AJObj l) = Ok p -> rp_amt p = Some n.
 Proof.
   intros H. unfold dec_posting, dec_struct. intros D.
   apply bind_ok in D. destruct D as [s [_ D]].
